@@ -190,6 +190,10 @@ structure State where
   nMisM : Nat := 0
   nMisS : Nat := 0
   nSkipS : Nat := 0
+  /-- emitted bodies that differ syntactically from the model's, read back into `Expr` (key: `decl item`) -/
+  actual : Std.HashMap String Expr := {}
+  nOpsA : Nat := 0
+  nMisA : Nat := 0
   deriving Inhabited
 
 def State.find (st : State) (name : String) : Option (Nat × TypeEntry) :=
